@@ -6,6 +6,7 @@
 //!        and default-function names (heck snake case) on the real dumps.
 //!   {"op":"idents","names":[str..]}      syn's verdict on each string: parse_str::<syn::Ident>
 //!   {"op":"snake","names":[str..]}       typify's sanitize(name, Snake) (default function names)
+//!   {"op":"pascal","names":[str..]}      typify's sanitize(name, Pascal) (type names of definition keys / titles)
 //! Everything else the check needs comes from `vh gen`.
 use serde_json::{json, Value};
 use unicode_ident::{is_xid_continue, is_xid_start};
@@ -40,6 +41,7 @@ fn main() {
         "classes" => classes(case),
         "idents" => json!({"r":"ok","ok": names(case).iter().map(|s| syn::parse_str::<syn::Ident>(s).is_ok()).collect::<Vec<_>>()}),
         "snake" => json!({"r":"ok","out": names(case).iter().map(|s| typify_impl::verif::sanitize(s, false)).collect::<Vec<_>>()}),
+        "pascal" => json!({"r":"ok","out": names(case).iter().map(|s| typify_impl::verif::sanitize(s, true)).collect::<Vec<_>>()}),
         _ => json!({"r":"badop"}),
     })
 }
